@@ -16,35 +16,36 @@ type Family struct {
 	Segs   []string // kinds after the prefix byte: "str","u64","fill32"
 	Codec  string   // "u64" | "bytes" | "msg:<short type name>" | "any"
 	Module string   // "mhub2" | "oracle"
+	GoName string   // the constant / variable of types/key.go that holds the prefix byte
 }
 
 var families = []*Family{
-	{Name: "ValExt", Prefix: 0x01, Segs: []string{"str", "str"}, Codec: "bytes"},
-	{Name: "OrchVal", Prefix: 0x02, Segs: []string{"str", "str"}, Codec: "bytes"},
-	{Name: "ExtOrch", Prefix: 0x03, Segs: []string{"str", "str"}, Codec: "bytes"},
-	{Name: "Sig", Prefix: 0x04, Segs: []string{"str", "str", "str"}, Codec: "bytes"},
-	{Name: "Vote", Prefix: 0x05, Segs: []string{"str", "u64", "str"}, Codec: "msg:ExternalEventVoteRecord"},
-	{Name: "OutTx", Prefix: 0x06, Segs: []string{"str", "str"}, Codec: "any"},
-	{Name: "Pool", Prefix: 0x07, Segs: []string{"str", "str", "fill32", "u64"}, Codec: "msg:SendToExternal"},
-	{Name: "LastNonceByVal", Prefix: 0x08, Segs: []string{"str", "str"}, Codec: "u64"},
-	{Name: "LastObservedNonce", Prefix: 0x09, Segs: []string{"str"}, Codec: "u64"},
-	{Name: "LatestSSNonce", Prefix: 0x0a, Segs: []string{"str"}, Codec: "u64"},
-	{Name: "LastSlashedOutTxBlock", Prefix: 0x0b, Segs: []string{"str"}, Codec: "u64"},
-	{Name: "LastBatchNonce", Prefix: 0x0d, Segs: []string{"str"}, Codec: "u64"},
-	{Name: "OutSeq", Prefix: 0x0e, Segs: []string{"str"}, Codec: "u64"},
-	{Name: "LastSteID", Prefix: 0x0f, Segs: []string{"str"}, Codec: "u64"},
-	{Name: "LastExtHeight", Prefix: 0x10, Segs: []string{"str"}, Codec: "msg:LatestBlockHeight"},
-	{Name: "TokenInfosF", Prefix: 0x11, Segs: []string{}, Codec: "msg:TokenInfos"},
-	{Name: "LastUnbonding", Prefix: 0x12, Segs: []string{}, Codec: "u64"},
-	{Name: "LastObservedSS", Prefix: 0x13, Segs: []string{"str"}, Codec: "msg:SignerSetTx"},
-	{Name: "TxStatusF", Prefix: 0x14, Segs: []string{"str"}, Codec: "msg:TxStatus"},
-	{Name: "TxFeeRecordF", Prefix: 0x15, Segs: []string{"str"}, Codec: "msg:TxFeeRecord"},
+	{Name: "ValExt", GoName: "ValidatorExternalAddressKey", Prefix: 0x01, Segs: []string{"str", "str"}, Codec: "bytes"},
+	{Name: "OrchVal", GoName: "OrchestratorValidatorAddressKey", Prefix: 0x02, Segs: []string{"str", "str"}, Codec: "bytes"},
+	{Name: "ExtOrch", GoName: "ExternalOrchestratorAddressKey", Prefix: 0x03, Segs: []string{"str", "str"}, Codec: "bytes"},
+	{Name: "Sig", GoName: "ExternalSignatureKey", Prefix: 0x04, Segs: []string{"str", "str", "str"}, Codec: "bytes"},
+	{Name: "Vote", GoName: "ExternalEventVoteRecordKey", Prefix: 0x05, Segs: []string{"str", "u64", "str"}, Codec: "msg:ExternalEventVoteRecord"},
+	{Name: "OutTx", GoName: "OutgoingTxKey", Prefix: 0x06, Segs: []string{"str", "str"}, Codec: "any"},
+	{Name: "Pool", GoName: "SendToExternalKey", Prefix: 0x07, Segs: []string{"str", "str", "fill32", "u64"}, Codec: "msg:SendToExternal"},
+	{Name: "LastNonceByVal", GoName: "LastEventNonceByValidatorKey", Prefix: 0x08, Segs: []string{"str", "str"}, Codec: "u64"},
+	{Name: "LastObservedNonce", GoName: "LastObservedEventNonceKey", Prefix: 0x09, Segs: []string{"str"}, Codec: "u64"},
+	{Name: "LatestSSNonce", GoName: "LatestSignerSetTxNonceKey", Prefix: 0x0a, Segs: []string{"str"}, Codec: "u64"},
+	{Name: "LastSlashedOutTxBlock", GoName: "LastSlashedOutgoingTxBlockKey", Prefix: 0x0b, Segs: []string{"str"}, Codec: "u64"},
+	{Name: "LastBatchNonce", GoName: "LastOutgoingBatchNonceKey", Prefix: 0x0d, Segs: []string{"str"}, Codec: "u64"},
+	{Name: "OutSeq", GoName: "OutgoingSequence", Prefix: 0x0e, Segs: []string{"str"}, Codec: "u64"},
+	{Name: "LastSteID", GoName: "LastSendToExternalIDKey", Prefix: 0x0f, Segs: []string{"str"}, Codec: "u64"},
+	{Name: "LastExtHeight", GoName: "LastExternalBlockHeightKey", Prefix: 0x10, Segs: []string{"str"}, Codec: "msg:LatestBlockHeight"},
+	{Name: "TokenInfosF", GoName: "TokenInfosKey", Prefix: 0x11, Segs: []string{}, Codec: "msg:TokenInfos"},
+	{Name: "LastUnbonding", GoName: "LastUnBondingBlockHeightKey", Prefix: 0x12, Segs: []string{}, Codec: "u64"},
+	{Name: "LastObservedSS", GoName: "LastObservedSignerSetKey", Prefix: 0x13, Segs: []string{"str"}, Codec: "msg:SignerSetTx"},
+	{Name: "TxStatusF", GoName: "TxStatusKey", Prefix: 0x14, Segs: []string{"str"}, Codec: "msg:TxStatus"},
+	{Name: "TxFeeRecordF", GoName: "TxFeeRecordKey", Prefix: 0x15, Segs: []string{"str"}, Codec: "msg:TxFeeRecord"},
 	// oracle module (its own store)
-	{Name: "OClaim", Store: "OStore", Module: "oracle", Prefix: 0x01, Segs: []string{"str", "str", "u64", "str"}, Codec: "msg:GenericClaim"},
-	{Name: "OAtt", Store: "OStore", Module: "oracle", Prefix: 0x02, Segs: []string{"u64", "str"}, Codec: "msg:Attestation"},
-	{Name: "OEpoch", Store: "OStore", Module: "oracle", Prefix: 0x03, Segs: []string{}, Codec: "u64"},
-	{Name: "OPrices", Store: "OStore", Module: "oracle", Prefix: 0x04, Segs: []string{}, Codec: "msg:Prices"},
-	{Name: "OHolders", Store: "OStore", Module: "oracle", Prefix: 0x05, Segs: []string{}, Codec: "msg:Holders"},
+	{Name: "OClaim", GoName: "OracleClaimKey", Store: "OStore", Module: "oracle", Prefix: 0x01, Segs: []string{"str", "str", "u64", "str"}, Codec: "msg:GenericClaim"},
+	{Name: "OAtt", GoName: "OracleAttestationKey", Store: "OStore", Module: "oracle", Prefix: 0x02, Segs: []string{"u64", "str"}, Codec: "msg:Attestation"},
+	{Name: "OEpoch", GoName: "CurrentEpochKey", Store: "OStore", Module: "oracle", Prefix: 0x03, Segs: []string{}, Codec: "u64"},
+	{Name: "OPrices", GoName: "CurrentPricesKey", Store: "OStore", Module: "oracle", Prefix: 0x04, Segs: []string{}, Codec: "msg:Prices"},
+	{Name: "OHolders", GoName: "CurrentHoldersKey", Store: "OStore", Module: "oracle", Prefix: 0x05, Segs: []string{}, Codec: "msg:Holders"},
 }
 
 var familyByName = map[string]*Family{}
